@@ -1,7 +1,8 @@
 #!/usr/bin/env python3
 """keepseed.py <srcdir> <seed-name> <pid>: confirm a seeded change independently (scratch worktree: demo passes clean, fails
 patched, suite unchanged), then keep it as /verif/seeded/<seed-name>/ and record whether ./check <pid> catches it."""
-import json, os, shutil, subprocess, sys, re
+import json, os, shutil, subprocess, sys, re, signal
+signal.signal(signal.SIGTERM, lambda *a: sys.exit(143))
 src, name, pid = sys.argv[1], sys.argv[2], sys.argv[3]
 skip_check = len(sys.argv) > 4 and sys.argv[4] == "--nocheck"
 wt = "/tmp/seedcheck_" + name
